@@ -29,13 +29,26 @@ def main():
         demo_dirs = {}
         for f in demos:
             txt = open(os.path.join(src, f)).read()
-            m = re.search(r'((?:pkg|internal)/[A-Za-z0-9_/]+)', '\n'.join(txt.splitlines()[:25]))
             pk = re.search(r'^package\s+(\w+)', txt, re.M).group(1)
-            cand = m.group(1).rstrip('/') if m else None
-            if cand and not os.path.isdir(os.path.join(d, cand)):
-                cand = os.path.dirname(cand)
+            base = pk[:-5] if pk.endswith('_test') else pk
+            cand = None
+            # the header comment names the directory; take the first path mentioned whose Go files declare the demo's package
+            for m in re.finditer(r'((?:pkg|internal)/[A-Za-z0-9_/]+)', '\n'.join(txt.splitlines()[:40])):
+                c = m.group(1).rstrip('/')
+                if not os.path.isdir(os.path.join(d, c)):
+                    c = os.path.dirname(c)
+                if not c or not os.path.isdir(os.path.join(d, c)):
+                    continue
+                decl = set()
+                for g in os.listdir(os.path.join(d, c)):
+                    if g.endswith('.go') and not g.endswith('_test.go'):
+                        mm = re.search(r'^package\s+(\w+)', open(os.path.join(d, c, g)).read(), re.M)
+                        if mm:
+                            decl.add(mm.group(1))
+                if base in decl:
+                    cand = c
+                    break
             if not cand or not os.path.isdir(os.path.join(d, cand)):
-                base = pk[:-5] if pk.endswith('_test') else pk
                 hits = [r for r, _, fs in os.walk(d) if os.path.basename(r) == base and any(x.endswith('.go') for x in fs)]
                 cand = os.path.relpath(hits[0], d) if hits else '.'
             demo_dirs[f] = cand
